@@ -23,6 +23,15 @@ Theorem C15_gates_not_beyond_newest :
 Proof. vm_compute. reflexivity. Qed.
 Print Assumptions C15_gates_not_beyond_newest.
 
+(* every hand-written checker whose source reads the configured version has its gate in the regenerated table
+   (a version read the translator cannot turn into a gate breaks this obligation instead of silently dropping the checker) *)
+Eval vm_compute in filter (fun n => negb (existsb (fun e => String.eqb (r_group e) n) rule_table)) handwritten_version_readers.
+Theorem C15_handwritten_gates_covered :
+  forallb (fun n => existsb (fun e => String.eqb (r_group e) n && match r_gate e with Some _ => true | None => false end) rule_table)
+          handwritten_version_readers = true.
+Proof. vm_compute. reflexivity. Qed.
+Print Assumptions C15_handwritten_gates_covered.
+
 Theorem C15_unset_is_newest : forall r m, In r rule_table -> gate_ok r (0, m) = gate_ok r newest_version.
 Proof.
   intros r m Hr. apply unset_is_newest; [vm_compute; discriminate|].
